@@ -31,7 +31,7 @@
 (*  (2) _pop collapses EVERY single-child entry;                           *)
 (*  (3) recovery re-feeds the token through _add_token, so it can nest.    *)
 (***************************************************************************)
-EXTENDS Conform
+EXTENDS Conform, TokEnv
 
 PB == JsonDeserialize("pb.json")   \* labels, breakkw, start, mode, env, hist, maxindent, pm, ids, ...
 Dfa(r) == Rules[r].dfa
@@ -69,9 +69,9 @@ StmtTarget(e) ==  \* target of the arc labelled `stmt` in e's state, or 0  (tos.
 (* closed subtree is summarised by its symbol).                            *)
 (***************************************************************************)
 VARIABLES stack, lastNL, ic, omit, errored, status, bad, out, toks, nrec, errAt, sid,
-          envNL, envInd, envAfterIndent, envAfterDedent, envClosing, envMidline
+          env        \* state of the token-stream environment (module TokEnv)
 pvars == <<stack, lastNL, ic, omit, errored, status, bad, out, toks, nrec, errAt, sid>>
-evars == <<envNL, envInd, envAfterIndent, envAfterDedent, envClosing, envMidline>>
+evars == <<env>>
 vars == <<pvars, evars>>
 
 Top(st) == st[Len(st)]
@@ -203,33 +203,21 @@ Unwind(x) ==
                  !.out = Log(x.out, << <<Rules[e.r].name, Kids(e)>> >>)]
 
 (***************************************************************************)
-(* Environment: the token streams the tokenizer can emit (TokEnv, DESIGN   *)
-(* A.2, bracket depth not tracked: an over-approximation).                 *)
+(* Environment: the token streams the tokenizer can emit = module TokEnv   *)
+(* (ASSUMED here, GUARANTEED by TokenizerB - TLC checks both).             *)
 (***************************************************************************)
-EnvAllows(t) ==
-  /\ (envClosing => t \in {DEDENT, ENDMARKER})
-  /\ (envMidline => t \in {DEDENT, ERROR_DEDENT, ENDMARKER} \cup BreakKw)
-  /\ (t = INDENT => envNL /\ ~envAfterIndent /\ ~envAfterDedent /\ envInd < MaxIndent)
-  /\ (t = DEDENT => envInd > 0 /\ ~envAfterIndent)
-  /\ (t = ERROR_DEDENT => envInd > 0 /\ ~envAfterIndent /\ (envNL \/ envMidline))
-  /\ (t = NEWLINE => ~envNL /\ ~envAfterIndent)
-  /\ (t = ENDMARKER => envInd = 0 /\ ~envAfterIndent)
-
-EnvStep(t) ==
-  /\ envInd' = IF t = INDENT THEN envInd + 1 ELSE IF t = DEDENT THEN envInd - 1 ELSE envInd
-  /\ envNL' = IF t = NEWLINE THEN TRUE ELSE IF t \in {DEDENT, ERROR_DEDENT, INDENT} THEN envNL ELSE FALSE
-  /\ envAfterIndent' = (t = INDENT)
-  /\ envAfterDedent' = (t \in {DEDENT, ERROR_DEDENT})
-  /\ envClosing' = (envClosing \/ t = ERRORTOKEN_NL)
-  /\ envMidline' = (t \in {DEDENT, ERROR_DEDENT} /\ (~envNL \/ envMidline) /\ ~envClosing)
+Kind(t) == IF t = INDENT THEN "INDENT" ELSE IF t = DEDENT THEN "DEDENT" ELSE IF t = ERROR_DEDENT THEN "ERROR_DEDENT"
+           ELSE IF t = NEWLINE THEN "NEWLINE" ELSE IF t = ENDMARKER THEN "ENDMARKER"
+           ELSE IF t = ERRORTOKEN_NL THEN "ERRORTOKEN_NL" ELSE IF t \in BreakKw THEN "BREAK" ELSE "OTHER"
+EnvAllows(t) == Allows(env, Kind(t), MaxIndent)
+EnvStep(t) == env' = After(env, Kind(t))
 
 Init ==
   /\ stack = << [r |-> StartR, k |-> 1, n |-> 0, syms |-> <<>>, shown |-> <<>>] >>
   /\ lastNL = FALSE /\ ic = 0 /\ omit = <<>> /\ errored = FALSE /\ status = "run" /\ bad = <<>> /\ out = <<>>
   /\ toks = <<>> /\ nrec = 0 /\ errAt = 0
   /\ sid \in (IF EnvMode = "script" THEN 1..Len(PB.scripts) ELSE {0})
-  /\ envNL = TRUE /\ envInd = 0 /\ envAfterIndent = FALSE /\ envAfterDedent = FALSE
-  /\ envClosing = FALSE /\ envMidline = FALSE
+  /\ env = EnvInit
 
 Cur(icv) == Res(stack, lastNL, omit, errored, "run", bad, out, icv, nrec, errAt)
 
